@@ -15,6 +15,8 @@ import (
 	"time"
 
 	abci "github.com/cometbft/cometbft/abci/types"
+	upgradetypes "github.com/cosmos/cosmos-sdk/x/upgrade/types"
+	"github.com/medibloc/panacea-core/v2/app"
 
 	"verif/engine/world"
 )
@@ -22,7 +24,7 @@ import (
 // Op is one alphabet entry.
 type Op struct {
 	Name string
-	Ctl  string // "" = transaction; "NB" next block, "RS" restart, "XI" export/import
+	Ctl  string // "" = transaction; "NB" next block, "RS" restart, "XI" export/import, "UG" in-process software upgrade
 	// Aux: the transaction built by Tx is not delivered but only simulated ("simulate") or checked ("checktx") on the
 	// node; such a call must not change any observed store (the model is left unchanged)
 	Aux string
@@ -320,6 +322,19 @@ func ApplyCtl(w *world.World, ctl string) (*world.World, error) {
 		return w, nil
 	case "RS":
 		w.Restart()
+		return w, nil
+	case "UG":
+		// in-process software upgrade: the newest registered plan is scheduled for the next height on the deliver state (what a
+		// passed upgrade proposal does), the next BeginBlock executes its handler, one more block follows. A plan can run once.
+		name := app.Upgrades[len(app.Upgrades)-1].UpgradeName
+		if w.App.UpgradeKeeper.GetDoneHeight(w.Ctx(), name) != 0 {
+			return w, nil
+		}
+		if err := w.App.UpgradeKeeper.ScheduleUpgrade(w.Ctx(), upgradetypes.Plan{Name: name, Height: w.Height + 1}); err != nil {
+			return nil, err
+		}
+		w.NextBlock()
+		w.NextBlock()
 		return w, nil
 	case "XI":
 		w2, err := w.ExportImport()
